@@ -105,7 +105,7 @@ def d2(ctx, F):
         h = rv["ops"][fields.index("headers")]
         # the headers operand is the very map the tag was removed from (wrapped in Some), or None
         hm = flow.root_local(rs, rem[0].args[0])
-        hv = flow.derived(rs, {hm} if hm is not None else set(), calls=("core::option::Option::Some",))
+        hv = flow.derived(rs, {hm} if hm is not None else set(), calls=("core::option::Option::Some", "core::bool::<impl bool>::then_some", "core::bool::<impl bool>::then"))
         okh = op_local(h) in hv or flow.root_local(rs, h) in hv
         ctx.check(okh, "C02.D2.rest-intact", "router:headers-dropped", "the remaining headers travel with the reply (None only when empty)", mp[0][1]["span"])
     ctx.check(okm, "C02.D2.rest-intact", "router:message-rebuilt", "the reply's message bytes are the incoming ones", rs.span)
